@@ -5,6 +5,8 @@ package scen
 //
 // Workload: seeded histories over one dataset of
 //   hstart(id|none) / hbatch(id|foreign|none) / hend(id|foreign|none)   real HTTP handler through the echo router
+//   jobrun                                                    a real fullsync job (scheduler-built job object, FullSyncPipeline:
+//                                                             DatasetSource -> filtering JavascriptTransform -> DatasetSink, batchSize 1-3)
 //   txn                                                       POST /transactions (real handler, Store.ExecuteTransaction) into the dataset
 //   jstart(j) / jbatch(j) / jend(j)                           what jobs.datasetSink does (Dataset API)
 //   sleep (past the lease), par{…}                            ops issued concurrently
@@ -16,6 +18,10 @@ package scen
 //   end answered 200 / job end returned nil for the sync that is current
 //       => every live entity not written since the start has exactly ONE new tombstone,
 //          everything written is live with the content last written, nothing else changed
+//   fullsync job (jobrun) recorded as successful
+//       => the deletion rule with "written" = the ids of the SOURCE that the job's transform lets through (derived from
+//          source + transform, not from what the run happened to write): they are live with the source content,
+//          every other live entity of the sink has exactly one new tombstone
 //   request answered 409 => feed unchanged
 //   end answered 410     => no tombstone now (body may have been stored: not demanded either way)
 //   job end of a superseded sync => feed unchanged
@@ -48,6 +54,7 @@ import (
 
 	"github.com/mimiro-io/datahub/internal/conf"
 	"github.com/mimiro-io/datahub/internal/jobs"
+	"github.com/mimiro-io/datahub/internal/security"
 	"github.com/mimiro-io/datahub/internal/server"
 	"github.com/mimiro-io/datahub/internal/verif/gen"
 	"github.com/mimiro-io/datahub/internal/verif/hub"
@@ -146,9 +153,55 @@ func c9Expand(op C9Op) C9Op {
 	return op
 }
 
+// C9Pipe: the fullsync job of a pipeline case. Src is the source dataset in change order (one version per id),
+// Drop the ids the JavaScript transform filters out, Batch the job's batchSize (= page size of the source reads).
+type C9Pipe struct {
+	Src   []C9Ent `json:"src"`
+	Drop  []int   `json:"drop"`
+	Batch int     `json:"batch"`
+}
+
+func (p *C9Pipe) dropped(n int) bool {
+	for _, d := range p.Drop {
+		if d == n {
+			return true
+		}
+	}
+	return false
+}
+
+// passing: what a complete run of the job delivers to the sink.
+func (p *C9Pipe) passing() []C9Ent {
+	var out []C9Ent
+	for _, e := range p.Src {
+		if !p.dropped(e.N) {
+			out = append(out, e)
+		}
+	}
+	return out
+}
+
+func (p *C9Pipe) code() string {
+	var d []string
+	for _, n := range p.Drop {
+		d = append(d, fmt.Sprintf("%d:1", n))
+	}
+	return `function transform_entities(entities) {
+  var DROP = {` + strings.Join(d, ",") + `};
+  var out = [];
+  for (var i = 0; i < entities.length; i++) {
+    var id = GetId(entities[i]);
+    var n = parseInt(id.substring(id.lastIndexOf("e") + 1));
+    if (!DROP[n]) { out.push(entities[i]); }
+  }
+  return out;
+}`
+}
+
 type C9Case struct {
 	LeaseMs int            `json:"lease_ms"`
 	Hooks   map[string]int `json:"hooks,omitempty"` // point -> sleep ms at every hit
+	Pipe    *C9Pipe        `json:"pipe,omitempty"`  // source, transform filter and batch size of the fullsync job of "jobrun" ops
 	Bulk    int            `json:"bulk,omitempty"`  // extra entities stored before the history (ids 100..)
 	Ops     []C9Op         `json:"ops"`
 	Tags    []string       `json:"tags"`
@@ -621,10 +674,24 @@ func genC9Case(r *rand.Rand, parPct int, hookPct int, tmplPct int, leaseMs int, 
 // ---------------------------------------------------------------- hub per child
 
 type c9Hub struct {
-	core  *hub.Core
-	e     *echo.Echo
-	lease time.Duration
-	dir   string
+	core   *hub.Core
+	e      *echo.Echo
+	lease  time.Duration
+	dir    string
+	env    *conf.Config
+	runner *jobs.Runner    // created on first use (pipeline cases); one per process
+	sched  *jobs.Scheduler // the real scheduler: builds the job objects from a job configuration
+}
+
+// scheduler assembles runner and scheduler the way app wiring does (no cron entry of a check ever fires).
+func (h *c9Hub) scheduler() *jobs.Scheduler {
+	if h.sched == nil {
+		pm := security.NewProviderManager(h.env, h.core.Store, h.env.Logger)
+		tps := security.NewTokenProviders(h.env.Logger, pm, nil)
+		h.runner = jobs.NewRunner(h.env, h.core.Store, tps, h.core.Bus, &statsd.NoOpClient{})
+		h.sched = jobs.NewScheduler(h.env, h.core.Store, h.core.Dsm, h.runner)
+	}
+	return h.sched
 }
 
 func c9Open(ctx *Ctx, lease time.Duration) *c9Hub {
@@ -639,10 +706,13 @@ func c9Open(ctx *Ctx, lease time.Duration) *c9Hub {
 	mw := web.NewMiddleware(env, e, nil, env.Logger, &statsd.NoOpClient{})
 	web.RegisterDatasetHandler(e, env.Logger, mw, core.Dsm, core.Store, core.Bus, nil)
 	web.RegisterTxnHandler(e, env.Logger, mw, core.Store)
-	return &c9Hub{core: core, e: e, lease: lease, dir: dir}
+	return &c9Hub{core: core, e: e, lease: lease, dir: dir, env: env}
 }
 
 func (h *c9Hub) close() {
+	if h.runner != nil {
+		h.runner.Stop()
+	}
 	_ = h.core.Close()
 	_ = os.RemoveAll(h.dir)
 }
@@ -701,11 +771,13 @@ type c9Run struct {
 	supersede           bool
 	expiry              bool
 	obsTags             map[string]bool
-	zombie              *c9Zombie // HTTP sync whose own end request was refused with 5xx
-	atComp              func()    // set while an end request with AtHook is in flight: issues the nested start
-	cancelAtComp        func()    // set while an end request with Cancel=="hook" is in flight
-	sawParEnd           bool      // a group of concurrent requests containing an end ran earlier in this history
-	jobSyncGotHTTPWrite bool      // a header-less HTTP write was answered 200 inside some job sync of this history
+	zombie              *c9Zombie              // HTTP sync whose own end request was refused with 5xx
+	pipeJob             *jobs.JobConfiguration // the registered fullsync job of a pipeline case
+	pipeRun             bool                   // the completion being judged is that of a whole job run
+	atComp              func()                 // set while an end request with AtHook is in flight: issues the nested start
+	cancelAtComp        func()                 // set while an end request with Cancel=="hook" is in flight
+	sawParEnd           bool                   // a group of concurrent requests containing an end ran earlier in this history
+	jobSyncGotHTTPWrite bool                   // a header-less HTTP write was answered 200 inside some job sync of this history
 
 	sinkMu     sync.Mutex
 	sinks      map[int]*jobs.VerifC09Sink
@@ -723,6 +795,7 @@ func c09FullSync(ctx *Ctx) error {
 		bulk = 4
 	}
 	tmplPct, _ := strconv.Atoi(ctx.Arg("templates", "30"))
+	pipe, _ := strconv.Atoi(ctx.Arg("pipe", "0")) // number of pipeline cases (real fullsync job) per child
 	if ctx.Replay != "" {
 		b, err := os.ReadFile(ctx.Replay)
 		if err != nil {
@@ -759,6 +832,8 @@ func c09FullSync(ctx *Ctx) error {
 		c := genC9Case(r, parPct, hookPct, tmplPct, leaseMs, ctx.Arg("httpsup", "") == "1")
 		if i < bulk { // the first `bulk` cases of a child are large-dataset cases
 			c = c9BulkCase(r, c.LeaseMs)
+		} else if i < bulk+pipe { // the next `pipe` cases run a real fullsync job with a filtering transform
+			c = c9PipeCase(r, c.LeaseMs)
 		}
 		h := hubs[c.LeaseMs]
 		if h == nil {
@@ -768,6 +843,82 @@ func c09FullSync(ctx *Ctx) error {
 		runC9Case(ctx, h, c, i)
 	}
 	return nil
+}
+
+// c9PipeCase: a fullsync job with a filtering transform and a small batch size into a sink that already holds
+// most of the source plus stale entities. In 70 % of the cases the filter removes one complete page of the source
+// that is not the last one.
+func c9PipeCase(r *rand.Rand, lease int) C9Case {
+	c := C9Case{LeaseMs: lease, Tags: []string{"pipeline", "job-sync"}}
+	const universe = 12
+	n := 5 + r.Intn(5)
+	perm := r.Perm(universe)
+	p := &C9Pipe{Batch: 1 + r.Intn(3)}
+	for _, id := range perm[:n] {
+		p.Src = append(p.Src, C9Ent{N: id, V: r.Intn(3)})
+	}
+	drop := map[int]bool{}
+	pages := (n + p.Batch - 1) / p.Batch
+	if r.Intn(100) < 70 && pages >= 2 {
+		pg := r.Intn(pages - 1)
+		for k := pg * p.Batch; k < (pg+1)*p.Batch && k < n; k++ {
+			drop[p.Src[k].N] = true
+		}
+		for _, e := range p.Src {
+			if r.Intn(100) < 12 {
+				drop[e.N] = true
+			}
+		}
+		c.Tags = append(c.Tags, "filter-drops-whole-page")
+	} else {
+		for _, e := range p.Src {
+			if r.Intn(100) < 30 {
+				drop[e.N] = true
+			}
+		}
+	}
+	for _, e := range p.Src {
+		if drop[e.N] {
+			p.Drop = append(p.Drop, e.N)
+		}
+	}
+	c.Pipe = p
+	// the sink before the run: most of the source (some with the same content), plus stale entities
+	var pre []C9Ent
+	for _, e := range p.Src {
+		if r.Intn(100) < 75 {
+			v := e.V
+			if r.Intn(2) == 0 {
+				v = r.Intn(3)
+			}
+			pre = append(pre, C9Ent{N: e.N, V: v})
+		}
+	}
+	for _, id := range perm[n:] {
+		if len(pre) == 0 || r.Intn(100) < 40 {
+			pre = append(pre, C9Ent{N: id, V: r.Intn(3)})
+		}
+	}
+	r.Shuffle(len(pre), func(i, j int) { pre[i], pre[j] = pre[j], pre[i] })
+	c.Ops = append(c.Ops, C9Op{K: "hbatch", Ents: pre})
+	if r.Intn(4) == 0 {
+		c.Ops = append(c.Ops, C9Op{K: "hbatch", Ents: c9Body(r, nil, true, 3)})
+	}
+	sup := r.Intn(4) == 0
+	if sup { // the job supersedes an HTTP sync
+		c.Ops = append(c.Ops, C9Op{K: "hstart", ID: "A", Ents: c9Body(r, nil, false, 2)})
+		c.Tags = append(c.Tags, "http-sync", "supersede")
+	}
+	c.Ops = append(c.Ops, C9Op{K: "jobrun", Job: 1})
+	switch {
+	case sup:
+		c.Ops = append(c.Ops, C9Op{K: "hend", ID: "A"})
+	case r.Intn(3) == 0:
+		c.Ops = append(c.Ops, C9Op{K: "hbatch", Ents: c9Body(r, nil, false, 2)})
+	case r.Intn(3) == 0: // the job runs again with nothing changed: nothing may be deleted twice
+		c.Ops = append(c.Ops, C9Op{K: "jobrun", Job: 1})
+	}
+	return c
 }
 
 // c9BulkCase: a sync over a dataset of 1100..2300 entities (ids 100..), i.e. more than one scan / deletion page of
@@ -1015,6 +1166,8 @@ func (r *c9Run) exec(op C9Op) (res c9Res) {
 			}
 		}
 		return jobRes(r.sink(op.Job).EndFullSync(jctx))
+	case "jobrun":
+		return r.runPipe()
 	case "sleep":
 		time.Sleep(time.Duration(op.Ms) * time.Millisecond)
 		return c9Res{Status: 200}
@@ -1044,6 +1197,98 @@ func (r *c9Run) parse(ents []C9Ent) ([]*server.Entity, error) {
 		return nil
 	})
 	return batch, err
+}
+
+// setupPipe creates the source dataset of the case's fullsync job, fills it in change order and registers the job
+// (paused: it only ever runs when a jobrun op runs it).
+func (r *c9Run) setupPipe() error {
+	p := r.cas.Pipe
+	src := r.dsName + "-src"
+	if _, err := r.h.core.Dsm.CreateDataset(src, nil); err != nil {
+		return err
+	}
+	if err := StoreBatch(r.h.core, src, r.toModel(p.Src), false); err != nil {
+		return err
+	}
+	id := "job-" + r.dsName
+	cfg := map[string]any{
+		"id": id, "title": id, "paused": true, "batchSize": p.Batch,
+		"source":    map[string]any{"Type": "DatasetSource", "Name": src},
+		"transform": map[string]any{"Type": "JavascriptTransform", "Code": c10B64(p.code())},
+		"sink":      map[string]any{"Type": "DatasetSink", "Name": r.dsName},
+		"triggers":  []any{map[string]any{"triggerType": "cron", "jobType": "fullsync", "schedule": "0 0 1 1 *"}},
+	}
+	raw, _ := json.Marshal(cfg)
+	sched := r.h.scheduler()
+	jc, err := sched.Parse(raw)
+	if err != nil {
+		return err
+	}
+	if err := sched.AddJob(jc); err != nil {
+		return err
+	}
+	r.pipeJob = jc
+	return nil
+}
+
+// runPipe runs the fullsync job once, synchronously, the way its cron entry does (job.Run), and answers with the
+// outcome the hub recorded for the run: 200 = no error recorded.
+func (r *c9Run) runPipe() c9Res {
+	sched := r.h.scheduler()
+	js, err := sched.VerifC08Jobs(r.pipeJob)
+	if err != nil {
+		return c9Res{Status: 500, Err: "job objects: " + err.Error()}
+	}
+	for _, j := range js {
+		if !j.IsFullSync() {
+			continue
+		}
+		j.Run()
+		found, lastErr, processed := sched.VerifC08LastRun(r.pipeJob.ID)
+		r.ctx.Out.Stat("pipeline_source_entities_processed", int64(processed))
+		r.ctx.Out.Stat("pipeline_source_entities", int64(len(r.cas.Pipe.Src)))
+		switch {
+		case !found:
+			return c9Res{Status: 0, Err: "no outcome recorded for the run"}
+		case lastErr != "":
+			return c9Res{Status: 500, Err: lastErr}
+		}
+		return c9Res{Status: 200}
+	}
+	return c9Res{Status: 0, Err: "no fullsync trigger"}
+}
+
+// judgeJobRun: a whole fullsync job (start, its batches, end) ran inside one op. Recorded as successful it is
+// judged as the completion of the job's sync, where "written since the start" is what the SOURCE holds and the
+// transform lets through.
+func (r *c9Run) judgeJobRun(i int, op C9Op, res c9Res, pre, post []C9Ent, leaseExits int, seq0 int64) {
+	out := r.ctx.Out
+	if res.Status != 200 {
+		// a failed run may have written part of its batches; it must not have deleted anything
+		for k := len(pre); k < len(post); k++ {
+			d := post[k]
+			if d.Del {
+				r.viol(i, "failed-job-run-deleted", fmt.Sprintf("op %d: the fullsync job failed (%s) but e%d got a tombstone", i, res.Err, d.N), "no tombstone", d)
+				break
+			}
+		}
+		out.Inconclusive(r.cid, "C09", "fullsync job did not succeed: "+res.Err)
+		r.cur, r.zombie = nil, nil
+		return
+	}
+	if r.cur != nil {
+		r.supersede = true
+		r.obsTags["supersede"] = true
+		out.Stat("supersessions:"+strings.SplitN(r.cur.owner, ":", 2)[0]+"-by-jobrun", 1)
+	}
+	r.zombie = nil
+	r.cur = &c9Sync{owner: "job:" + strconv.Itoa(op.Job), job: true, startOp: i, written: map[int]bool{}, maybeWritten: map[int]bool{}, viaTxn: map[int]bool{}, hookSeqAtStart: seq0}
+	r.pipeRun = true
+	defer func() { r.pipeRun = false }()
+	pass := r.cas.Pipe.passing()
+	out.Stat("pipeline_runs_judged", 1)
+	out.Stat("pipeline_entities_passing_the_filter", int64(len(pass)))
+	r.judge(i, false, false, []C9Op{{K: "jend", Job: op.Job, Ents: pass}}, []c9Res{{Status: 200}}, pre, post, leaseExits, seq0)
 }
 
 func (r *c9Run) hook(point string, ms int) func(string, int64) {
@@ -1127,6 +1372,13 @@ func runC9Case(ctx *Ctx, h *c9Hub, c C9Case, idx int) {
 		ctx.Out.Stat("bulk_cases", 1)
 		ctx.Out.Stat("bulk_entities", int64(c.Bulk))
 	}
+	if c.Pipe != nil {
+		if err := r.setupPipe(); err != nil {
+			ctx.Out.Inconclusive(cid, "C09", "pipeline setup: "+err.Error())
+			return
+		}
+		ctx.Out.Stat("pipeline_cases", 1)
+	}
 	var err error
 	if r.lastPost, err = r.readFeed(); err != nil {
 		ctx.Out.Inconclusive(cid, "C09", "feed: "+err.Error())
@@ -1151,6 +1403,9 @@ func runC9Case(ctx *Ctx, h *c9Hub, c C9Case, idx int) {
 	ctx.Out.Stat("ops", int64(len(c.Ops)))
 	ctx.Out.Stat("syncs_completed", int64(r.completed))
 	nontrivial := r.completed > 0 && (r.foreign || r.supersede || r.expiry)
+	if p := c.Pipe; p != nil && r.completed > 0 && len(p.Drop) > 0 && len(p.Src) > p.Batch {
+		nontrivial = true // a job run over several source pages whose transform filters something out
+	}
 	var tags []string
 	for t := range r.obsTags {
 		tags = append(tags, "obs:"+t)
@@ -1308,6 +1563,11 @@ func (r *c9Run) step(i int, op C9Op) bool {
 			// the started flag was up before the request and its id check passed (else 409): the lease went away inside the request
 			out.Stat("order:lease-expired-inside-end-request-before-release", 1)
 		}
+	}
+	if op.K == "jobrun" {
+		r.judgeJobRun(i, op, results[0], pre, post, leaseExits, seq0)
+		r.lastPost = post
+		return true
 	}
 	r.judge(i, op.K == "par" || nested, nested, ops, results, pre, post, leaseExits, seq0)
 	r.lastPost = post
@@ -1547,6 +1807,10 @@ func (r *c9Run) judge(i int, par bool, nested bool, ops []C9Op, res []c9Res, pre
 			}
 			// attribution: the narrowest recorded fact of the history that can explain a wrong deletion set
 			switch {
+			case r.pipeRun:
+				// the expectation comes from the job's source and transform: an entity the filter lets through is deleted,
+				// or one it does not deliver survives
+				qual = "fullsync-job-with-filtering-transform"
 			case nested:
 				qual = "start-inside-end" // another sync was started while this end request was inside the hub
 			case len(r.cur.foreignEnds) > 0:
